@@ -258,18 +258,16 @@ impl RegExpBuilder {
 /// Replaces Rust Unicode escape sequences to Python Unicode escape sequences.
 fn replace_unicode_escape_sequences(regexp: String) -> String {
     lazy_static! {
-        static ref FOUR_CHARS_ESCAPE_SEQUENCE: Regex = Regex::new(r"\\u\{([0-9a-f]{4})\}").unwrap();
-        static ref FIVE_CHARS_ESCAPE_SEQUENCE: Regex = Regex::new(r"\\u\{([0-9a-f]{5})\}").unwrap();
+        static ref ESCAPE_SEQUENCE: Regex = Regex::new(r"\\u\{([0-9a-f]{1,6})\}").unwrap();
     }
-    let mut replacement = FOUR_CHARS_ESCAPE_SEQUENCE
-        .replace_all(&regexp, |caps: &Captures| format!("\\u{}", &caps[1]))
-        .to_string();
-
-    replacement = FIVE_CHARS_ESCAPE_SEQUENCE
-        .replace_all(&replacement, |caps: &Captures| {
-            format!("\\U000{}", &caps[1])
+    ESCAPE_SEQUENCE
+        .replace_all(&regexp, |caps: &Captures| {
+            let code_point = u32::from_str_radix(&caps[1], 16).unwrap();
+            if code_point <= 0xffff {
+                format!("\\u{:04x}", code_point)
+            } else {
+                format!("\\U{:08x}", code_point)
+            }
         })
-        .to_string();
-
-    replacement
+        .to_string()
 }
